@@ -219,10 +219,24 @@ def polylines(model, rng, count):
         if len(pts) < 2:
             continue
         line = LineString(pts)
-        if not line.is_simple or line.length == 0:
+        if not line.is_simple or line.length == 0 or not robustly_simple(pts, 1e-6 * max(w, h)):
             continue
         out.append((line, c))
     return out
+
+
+def robustly_simple(pts, eps):
+    """A path whose non-adjacent legs stay at least eps apart and whose consecutive legs do not fold back on each other.
+    GEOS calls a path simple even when a vertex lies within one ulp of another leg; positions along such a path
+    (line.project) are ambiguous, so the oracles could not decide anything there."""
+    legs = [LineString([pts[i], pts[i + 1]]) for i in range(len(pts) - 1)]
+    for i in range(len(legs)):
+        for j in range(i + 2, len(legs)):
+            if legs[i].distance(legs[j]) <= eps:
+                return False
+        if i + 1 < len(legs) and legs[i].distance(Point(pts[i + 2])) <= eps:
+            return False
+    return True
 
 
 def ring_equal(a, b, tol=0.0, same_start=True):
